@@ -32,6 +32,9 @@ pub enum Sender {
     ViaExampleApp,
     /// ... that did not authorise it
     ViaExampleAppUnauthorised,
+    /// the account has just (same ledger) consumed an inbound message addressed to it, with its authorisation for that;
+    /// the outbound call naming it carries no authorisation
+    AccountUnauthorisedAfterOwnInboundMessage,
 }
 
 #[derive(Clone, Debug, Serialize, Deserialize, PartialEq, Eq)]
@@ -107,7 +110,7 @@ impl Property for C13 {
         "C13"
     }
     fn rule(&self) -> &'static str {
-        "proptest single cases: sender (account with exact authorisation / none / authorisation for another payload / another account's authorisation; probe contract calling as itself / naming an account; the gateway's own address, its owner or its operator named as sender with nobody signing; the shipped example app sending for an account with / without that account's authorisation), gateway in its ordinary state or upgraded-but-not-migrated, with 1-3 initial signer sets, retention 0-2 and 0-3 earlier rotations (so that signer history inside and outside the window exists), destination chain and address strings (empty, ASCII up to 300 bytes, multi-byte UTF-8, invalid UTF-8, up to 12 KB long), payload lengths around the Keccak rate (0,1,31,32,33,135,136,137,271..273,...) up to 64 KiB with case-seeded content. Oracle: success iff the sender authorised (or is the calling contract); then exactly one event by the gateway with topics (contract_called, sender, chain, address, own Keccak-256(payload)) and data = payload, and the gateway's own ledger entries unchanged; otherwise failure, no event, full snapshot equality. non-trivial = every case (the suite has one sample); distinct by Debug hash of the whole case. One case in six is an entry-point sweep: the exported functions of all seven shipped contracts are read from the sources of the tree under test (entry points absent from the inventory taken at the pinned commit get 300 deterministic cases each and half of the random ones), one is called on a fully deployed system (gateway, gas service, operators, token service with a deployed token, stand-alone token, upgrader, example app; some contracts optionally upgraded-but-not-migrated) with arguments drawn from pools of the system's principals, contracts, tokens, names, ids and boundary amounts, every require_auth satisfied by the host's mock and recorded; oracle: every contract_called event of the gateway names a sender that is among the recorded signers or is the called contract itself (cases where the mock let a contract sign are discarded); non-trivial = the call succeeded"
+        "proptest single cases: sender (account with exact authorisation / none / authorisation for another payload / another account's authorisation; none, right after the account consumed an inbound message of its own in the same ledger; probe contract calling as itself / naming an account; the gateway's own address, its owner or its operator named as sender with nobody signing; the shipped example app sending for an account with / without that account's authorisation), gateway in its ordinary state or upgraded-but-not-migrated, with 1-3 initial signer sets, retention 0-2 and 0-3 earlier rotations (so that signer history inside and outside the window exists), destination chain and address strings (empty, ASCII up to 300 bytes, multi-byte UTF-8, invalid UTF-8, up to 12 KB long), payload lengths around the Keccak rate (0,1,31,32,33,135,136,137,271..273,...) up to 64 KiB with case-seeded content. Oracle: success iff the sender authorised (or is the calling contract); then exactly one event by the gateway with topics (contract_called, sender, chain, address, own Keccak-256(payload)) and data = payload, and the gateway's own ledger entries unchanged; otherwise failure, no event, full snapshot equality. non-trivial = every case (the suite has one sample); distinct by Debug hash of the whole case. One case in six is an entry-point sweep: the exported functions of all seven shipped contracts are read from the sources of the tree under test (entry points absent from the inventory taken at the pinned commit get 300 deterministic cases each and half of the random ones), one is called on a fully deployed system (gateway, gas service, operators, token service with a deployed token, stand-alone token, upgrader, example app; some contracts optionally upgraded-but-not-migrated) with arguments drawn from pools of the system's principals, contracts, tokens, names, ids and boundary amounts, every require_auth satisfied by the host's mock and recorded; oracle: every contract_called event of the gateway names a sender that is among the recorded signers or is the called contract itself (cases where the mock let a contract sign are discarded); non-trivial = the call succeeded"
     }
     fn cases(&self, tier: Tier) -> u64 {
         tier.pick(20000, 200000)
@@ -125,6 +128,7 @@ impl Property for C13 {
                 1 => any::<bool>().prop_map(Sender::RoleHolderNotSigning),
                 2 => Just(Sender::ViaExampleApp),
                 1 => Just(Sender::ViaExampleAppUnauthorised),
+                1 => Just(Sender::AccountUnauthorisedAfterOwnInboundMessage),
             ],
             strc(),
             strc(),
@@ -225,6 +229,22 @@ impl Property for C13 {
                 soroban_sdk::token::StellarAssetClient::new(&env, &gas_asset).mint(&acct, &10);
                 env.mock_auths(&[]);
             }
+            Sender::AccountUnauthorisedAfterOwnInboundMessage => {
+                let m = axelar_gateway::types::Message {
+                    source_chain: sstr(&env, "ethereum"),
+                    message_id: sstr(&env, "inbound-1"),
+                    source_address: sstr(&env, "0xsrc"),
+                    contract_address: acct.clone(),
+                    payload_hash: BytesN::from_array(&env, &[9; 32]),
+                };
+                gw.approve(&env, &newest, &[m.clone()]).map_err(|e| format!("setup: {}", e))?;
+                env.mock_all_auths();
+                let consumed = gw.client.validate_message(&acct, &m.source_chain, &m.message_id, &m.source_address, &m.payload_hash);
+                if !consumed {
+                    return Err("setup: the account could not consume a message approved for it".into());
+                }
+                env.mock_auths(&[]);
+            }
             _ => env.mock_auths(&[]),
         }
         let state0 = state_of(&env, &gw.id);
@@ -237,7 +257,7 @@ impl Property for C13 {
                 let r = gw.client.try_call_contract(&acct, &chain, &addr, &payload);
                 (acct.clone(), matches!(r, Ok(Ok(()))), true)
             }
-            Sender::AccountUnauthorised | Sender::AccountAuthorisedOtherPayload | Sender::OtherAccountAuthorised => {
+            Sender::AccountUnauthorised | Sender::AccountAuthorisedOtherPayload | Sender::OtherAccountAuthorised | Sender::AccountUnauthorisedAfterOwnInboundMessage => {
                 let r = gw.client.try_call_contract(&acct, &chain, &addr, &payload);
                 (acct.clone(), matches!(r, Ok(Ok(()))), false)
             }
